@@ -8,6 +8,7 @@ import SlocModel.Driver.Structure
 import SlocModel.Driver.AtomicWrite
 import SlocModel.Driver.Remote
 import SlocModel.Driver.Cache
+import SlocModel.Driver.GitDiff
 open SlocModel.Driver
 
 def dispatch (line : String) : String :=
@@ -42,6 +43,9 @@ def dispatch (line : String) : String :=
       | "extends" => handleExtends args
       | "merge" => handleMerge args
       | "finish" => handleFinish args
+      | "git-diff" => handleGitDiff args
+      | "git-staged" => handleGitStaged args
+      | "range" => handleRange args
       | _ => some "bad-op"
     r.getD "bad-args"
   | [] => "bad-op"
